@@ -124,6 +124,7 @@ const PARAMS: &[Param] = &[
     Param { name: "ground speed", get: |r| Val::U(r.grspeed) },
     Param { name: "track", get: |r| Val::U(r.track) },
     Param { name: "vertical rate", get: |r| Val::I(r.vrate) },
+    Param { name: "heading", get: |r| Val::U(r.heading) },
     Param { name: "surveillance status", get: |r| Val::C(r.surveillance_status) },
     Param { name: "ADS-B version", get: |r| Val::U(r.adsb_version) },
     Param { name: "capability (CA)", get: |r| Val::U(Some(r.ca)) },
@@ -161,7 +162,7 @@ fn role(p: &str, c: &Carried, frame: &[u8], relaxed: bool) -> Role {
     let opt_u = |v: Option<u32>| match v { Some(x) => Role::Must(Val::U(Some(x))), None => Role::NoValue };
     // Comm-B derived values are gated by capability state (C10): judged only under -R
     let mb = |v: Option<Val>| -> Role { if relaxed { match v { Some(x) => Role::Must(x), None => Role::Not } } else { Role::May(v) } };
-    if (df == 20 || df == 21) && !relaxed && matches!(p, "callsign" | "ground speed" | "track" | "vertical rate" | "capability (BDS 1,7 report)") {
+    if (df == 20 || df == 21) && !relaxed && matches!(p, "callsign" | "ground speed" | "track" | "vertical rate" | "heading" | "capability (BDS 1,7 report)") {
         return Role::Any;
     }
     match p {
@@ -196,6 +197,11 @@ fn role(p: &str, c: &Carried, frame: &[u8], relaxed: bool) -> Role {
         "vertical rate" => match df {
             17 if c.tc == 19 => match c.vrate { Some(x) => Role::Must(Val::I(Some(x))), None => Role::NoValue },
             20 | 21 if c.reg == 60 => if relaxed { match c.vrate { Some(x) => Role::Must(Val::I(Some(x))), None => Role::May(None) } } else { Role::May(c.vrate.map(|x| Val::I(Some(x)))) },
+            _ => Role::Not,
+        },
+        "heading" => match df {
+            17 if c.tc == 19 && (c.st == 3 || c.st == 4) => opt_u(c.heading),
+            20 | 21 if c.reg == 60 => if relaxed { match c.heading { Some(x) => Role::Must(Val::U(Some(x))), None => Role::May(None) } } else { Role::May(c.heading.map(|x| Val::U(Some(x)))) },
             _ => Role::Not,
         },
         "surveillance status" => match df {
